@@ -227,7 +227,8 @@ def sized_temporaries():
     """results of the string functions that become procedure calls are received by temporaries; at a non-default string size
     every one of them carries the requested size (shared with C10)"""
     from tx import p_c10
-    return [dict(o, id="sized/" + o["id"]) for o in p_c10.positions() if "temporary" in o["id"] or "function" in o["id"]]
+    from tx.p_c05 import share
+    return share("sized/", p_c10.positions())
 
 
 def obligations():  # noqa: F811
